@@ -8,7 +8,7 @@ def native(ctx, src, args, extra_flags="", libs="", extra_src=("src/Exception/Co
     """Compile replay/<src> (once per run) and run it with args. Returns (True|False|None, output)."""
     exe = os.path.join(ctx.out, os.path.splitext(os.path.basename(src))[0] + ".replay.exe")
     srcp = os.path.join(ctx.verif, "replay", src)
-    if not os.path.exists(exe) or os.path.getmtime(exe) < os.path.getmtime(srcp):
+    if True:  # always rebuild: the harness depends on the headers and sources of /repo's working tree
         cmd = "g++ -std=c++20 -O0 -I%s/include -I%s/engines/symvc %s %s %s -o %s %s" % (ctx.repo, ctx.verif, extra_flags, srcp, " ".join(os.path.join(ctx.repo, e) for e in extra_src), exe, libs)
         p = subprocess.run(cmd, shell=True, capture_output=True, text=True, timeout=600)
         if p.returncode != 0:
